@@ -326,7 +326,7 @@ def run(ctx: Ctx, tier: str) -> Result:
         else:
             res.fail(Finding("C03.MERGE", cr.qname, m, cr.loc(m), "merge does not pass all actions of the new trigger"))
     from .common import borrow
-    borrow(ctx, res, tier, "c13", ("C13.ADD",), "C03.PUBLISH", "what is installed is the service's tracepoints plus the registered ones, each once (a removed tracepoint stops acting)")
+    borrow(ctx, res, tier, "c13", ("C13.ADD", "C13.ARGS"), "C03.PUBLISH", "what is installed is the service's tracepoints plus the registered ones, each once (a removed tracepoint stops acting)")
     borrow(ctx, res, tier, "c11", ("C11.ISOLATE",), "C03.ISOLATE", "a tracepoint that cannot be interpreted does not keep the others of the response from acting")
     return res
 
